@@ -4,6 +4,14 @@ import json, os
 V = os.path.dirname(os.path.dirname(os.path.abspath(__file__)))
 
 CHECKS = {
+ "C09": dict(
+    technique="runtime oracles: independent per-format readers (D, C, P, H, L, Lx) recover names/exponents/positions from every rendering; Python's own format() for magnitudes; parse-back round trip; fingerprints",
+    text="Every canonical unit x exponents {1,-1,2,-2} x 16 specs as Unit and as Quantity (79 680 cells, complete in both tiers) plus random compounds (1-5 terms, integer/fractional "
+         "exponents, prefixed units, same-symbol units), every magnitude kind and 12 magnitude specs, the # modifier, 19 default_format values x 4 sort functions x "
+         "separate_format_defaults, in float/Decimal/Fraction registries: each rendering is read back by an independent reader and compared with the object's container, "
+         "magnitude text with Python's format(), plain-text renderings re-parsed whenever exponents are rendered exactly; nothing may raise or change the object.",
+    note="babel/locale out of scope; the 'raw' format (not listed in the statement) is observed only; eight recorded findings (P1-P8), one defect fixed (Fraction exponents)",
+    ref="4/C09"),
  "C16": dict(
     technique="runtime oracles: own unit-algebra table per NumPy function + re-expression metamorphic relation + numpy on root magnitudes; input fingerprints; error and offset clauses",
     text="All 217 reachable names of HANDLED_FUNCTIONS / HANDLED_UFUNCS / wrapped ndarray methods (559 call variants: axis, keepdims, where, initial, ddof, out, atol, prepend/append ...) are "
